@@ -33,6 +33,7 @@ package attr
 // namespace (callers that mean an unqualified stanza attribute have to check
 // the namespace themselves).
 //@ func Get
+//@   pure
 //@   ensures[C07,C12] result0 >= 0 ==> result0 < len(attr) && attr[result0].Name.Local == local && result1 == attr[result0].Value
 //@   ensures[C07,C12] result0 >= 0 ==> forall k int :: 0 <= k && k < result0 ==> attr[k].Name.Local != local
 //@   ensures[C07,C12] result0 < 0 ==> result0 == -1 && result1 == "" && (forall k int :: 0 <= k && k < len(attr) ==> attr[k].Name.Local != local)
